@@ -70,6 +70,14 @@ def gen(ctx):
             else:
                 expr = "\ufeff" + expr
                 mode = rng.choice(["efile", "pos"])
+        r3 = rng.random()
+        if r3 < 0.04:
+            # a file whose NAME is "-" is a file like any other (present or missing), whatever arrives on stdin
+            ik = rng.choice(["file-dash", "file-dash-missing"])
+        elif r3 < 0.08:
+            # failing runs whose diagnosis is long and full of multi-byte characters at every alignment
+            pad = "a" * rng.randrange(0, 4) + rng.choice(["é", "😀", "中"]) * rng.choice([300, 400, 520, 700])
+            expr = rng.choice(["'%s' && abs('x')", "'%s' && nope(@)", "'%s' && a.", "\"%s\".~"]) % pad
         if expr.startswith("-") or expr == "":
             mode = "efile" if mode == "pos" else mode      # a leading '-' would be taken as a flag by clap; empty positional is fine via file
         cases.append((mode, expr, flags or "-", ik, doc))
@@ -113,12 +121,19 @@ def run_real(binpath, k, case):
         args += ["-f", p]
     elif ik == "stdin-badutf8":
         stdin = b"[\"\xff\"]"
+    elif ik == "file-dash":
+        open(os.path.join(d, "-"), "w", encoding="utf-8").write(doc)
+        args += ["-f", "-"]
+        stdin = b"\"this is what arrives on stdin\""
+    elif ik == "file-dash-missing":
+        args += ["-f", "-"]
+        stdin = doc.encode("utf-8")
     else:
         stdin = doc.encode("utf-8")
     if mode in ("pos", "both"):
         args += ["--", expr] if False else [expr]
     try:
-        r = subprocess.run(args, input=stdin, stdout=subprocess.PIPE, stderr=subprocess.PIPE, timeout=20)
+        r = subprocess.run(args, input=stdin, stdout=subprocess.PIPE, stderr=subprocess.PIPE, timeout=20, cwd=d)
         return r.returncode, r.stdout, len(r.stderr) > 0
     except subprocess.TimeoutExpired:
         return "HANG", b"", False
@@ -132,7 +147,8 @@ def run(ctx):
     shutil.rmtree(SCRATCH, ignore_errors=True)
     os.makedirs(SCRATCH, exist_ok=True)
     cases = [tuple(ctx.replay["case"])] if getattr(ctx, "replay", None) else gen(ctx)
-    lines = ["\t".join([c[0], C.hexs(c[1]), c[2], c[3], C.hexs(c[4])]) for c in cases]
+    MK = {"file-dash": "file", "file-dash-missing": "file-missing"}      # for the model a file named "-" is a file
+    lines = ["\t".join([c[0], C.hexs(c[1]), c[2], MK.get(c[3], c[3]), C.hexs(c[4])]) for c in cases]
     model = C.run_parallel([ctx.driver, "cli"], lines, idle_timeout=60)
     with concurrent.futures.ThreadPoolExecutor(max_workers=8) as ex:
         real = list(ex.map(lambda kc: run_real(binpath, kc[0], kc[1]), enumerate(cases)))
